@@ -631,6 +631,10 @@ func (tb *TB) Select(a, i *Term) *Term {
 				a = a.Args[0]
 				continue
 			}
+			if a.Sort.Elem.Kind != SArr && storeDepth(a) <= 40 {
+				// read-over-write pushed down: keeps index reads free of array terms
+				return tb.Ite(tb.Eq(i, j), a.Args[2], tb.Select(a.Args[0], i))
+			}
 		case "app":
 			if a.Name == "copyrange" {
 				// copyrange(dst, doff, src, soff, n)[i] = ite(doff<=i<doff+n (unsigned, no wrap assumed), src[i-doff+soff], dst[i])
@@ -649,6 +653,15 @@ func (tb *TB) Select(a, i *Term) *Term {
 		break
 	}
 	return tb.mk(&Term{Op: "select", Args: []*Term{a, i}, Sort: a.Sort.Elem})
+}
+
+func storeDepth(a *Term) int {
+	n := 0
+	for a.Op == "store" {
+		n++
+		a = a.Args[0]
+	}
+	return n
 }
 
 // distinctSyn: syntactically provable i != j (both x+c with different c, or distinct constants)
@@ -714,7 +727,7 @@ func (tb *TB) CopyRange(dst, doff, src, soff, n *Term) *Term {
 	if n.IsConst() && n.Val.Sign() == 0 {
 		return dst
 	}
-	if n.IsConst() && n.Val.Cmp(big.NewInt(16)) <= 0 {
+	if n.IsConst() && n.Val.Cmp(big.NewInt(32)) <= 0 {
 		out := dst
 		for i := int64(0); i < n.Val.Int64(); i++ {
 			k := tb.BVI(64, i)
@@ -949,7 +962,7 @@ func (p *printer) str(t *Term) string {
 		}
 		sb.WriteString(") ")
 		body := p.str(t.Args[0])
-		if len(t.Pats) > 0 {
+		if len(t.Pats) > 0 && patsOK(t.Pats) {
 			sb.WriteString("(! " + body)
 			for _, pat := range t.Pats {
 				sb.WriteString(" :pattern (")
@@ -977,13 +990,43 @@ func (p *printer) str(t *Term) string {
 	return sb.String()
 }
 
+func patsOK(pats [][]*Term) bool {
+	seen := map[*Term]bool{}
+	var bad func(t *Term) bool
+	bad = func(t *Term) bool {
+		if seen[t] {
+			return false
+		}
+		seen[t] = true
+		switch t.Op {
+		case "ite", "and", "or", "not", "=>", "=", "forall", "exists":
+			return true
+		}
+		for _, a := range t.Args {
+			if bad(a) {
+				return true
+			}
+		}
+		return false
+	}
+	for _, p := range pats {
+		for _, x := range p {
+			if bad(x) {
+				return false
+			}
+		}
+	}
+	return true
+}
+
 // Script renders an SMT-LIB2 script asserting all of hyps and the negation of goal.
 // Shared closed sub-terms are hoisted into define-funs.
-func (tb *TB) Script(hyps []*Term, goal *Term, produceModels bool, forCVC5 bool) string {
+func (tb *TB) Script(hyps []*Term, goal *Term, produceModels bool, forCVC5 bool, values ...*Term) string {
 	roots := append([]*Term{}, hyps...)
 	if goal != nil {
 		roots = append(roots, goal)
 	}
+	roots = append(roots, values...)
 	// count references
 	refs := map[int]int{}
 	var order []*Term
@@ -1070,7 +1113,11 @@ func (tb *TB) Script(hyps []*Term, goal *Term, produceModels bool, forCVC5 bool)
 		fmt.Fprintf(&sb, "(assert (not %s))\n", p.str(goal))
 	}
 	sb.WriteString("(check-sat)\n")
-	if produceModels {
+	if len(values) > 0 {
+		for _, v := range values {
+			fmt.Fprintf(&sb, "(get-value (%s))\n", p.str(v))
+		}
+	} else if produceModels {
 		sb.WriteString("(get-model)\n")
 	}
 	return sb.String()
